@@ -124,7 +124,7 @@ func receiptsBody(nsend int) nd.Body {
 					stanza.Message{ID: id, Type: stanza.ChatMessage})
 				outs[i].err = err
 				outs[i].cancelled = ctxs[i].Err() != nil
-				outs[i].returned = true
+				vs.Atomically(func() { outs[i].returned = true })
 			}
 			vs.GoNamed("canceller", false, func() {
 				for i := range cancels {
